@@ -244,6 +244,16 @@ class SqliteMixin:
                 db.set_scalar("committed", db.scalar("issued"))
                 db.set_scalar("ncommits", db.scalar("ncommits") + 1)
                 return NONE_VAL
+            if name == "rollback":
+                # back to the state of the last commit, which the model does not keep: every table cell of this connection
+                # becomes unknown, and nothing is pending any more
+                db = self.db(st, recv)
+                for key, srt in self.sqlite_keys():
+                    if key.rsplit(".", 1)[-1] in ("issued", "committed", "ncommits"):
+                        continue
+                    st.write(key, srt, db.c, fresh("rb_" + key.rsplit(".", 1)[-1], srt))
+                db.set_scalar("issued", db.scalar("committed"))
+                return NONE_VAL
             if name == "cursor":
                 return self.new_cursor(st, recv)
             if name == "close":
